@@ -31,6 +31,7 @@ import (
 	hatypes "github.com/jcmoraisjr/haproxy-ingress/pkg/haproxy/types"
 
 	"verif/harness/lib/c1819"
+	"verif/harness/lib/cfgnorm"
 	"verif/harness/lib/hx"
 )
 
@@ -254,10 +255,22 @@ func genPipeline(rng *rand.Rand) input {
 	}
 	genGlobalAuth(rng, in.Global)
 	hosts := []string{"h1.local", "h2.local"}
+	if rng.Intn(4) == 0 {
+		hosts[1] = "*.w.local" // a wildcard host: requests come with any label in front
+	}
 	paths := []string{"/", "/app", "/api", "/app/sub", "/App", "/x"}
 	used := map[string]bool{}
 	n := 1 + rng.Intn(4)
 	oauthSeen := false
+	if rng.Intn(5) == 0 {
+		// an ssl-passthrough host: its root goes to a TLS port in tcp mode, its other paths
+		// are plain http paths of port 80 like any other
+		hosts[0] = "pass.local"
+		used["pass.local/"] = true
+		in.Services = append(in.Services, "tls")
+		in.Ingresses = append(in.Ingresses, ingIn{Name: "ingpass", Ann: map[string]string{"ssl-passthrough": "true"},
+			Rules: []c1819.Rule{{Host: "pass.local", Path: "/", Service: "tls", Port: 8443}}})
+	}
 	for i := 0; i < n; i++ {
 		g := ingIn{Name: fmt.Sprintf("ing%d", i+1), Ann: genAnn(rng)}
 		if _, ok := g.Ann[kOAuth]; ok {
@@ -274,6 +287,9 @@ func genPipeline(rng *rand.Rand) input {
 			}
 			used[host+strings.ToLower(p)] = true
 			g.Rules = append(g.Rules, c1819.Rule{Host: host, Path: p, Service: pick(rng, []string{"app1", "app1", "app2"}), Port: 8080})
+		}
+		if rng.Intn(6) == 0 && !strings.HasPrefix(host, "*") {
+			g.Ann["server-alias"] = "alias-" + host // the same paths answer to another name
 		}
 		if len(g.Rules) > 0 {
 			in.Ingresses = append(in.Ingresses, g)
@@ -383,6 +399,17 @@ func corpus() []input {
 			{Name: "ing2", Ann: annOf(kURL, "http://10.0.0.2:8000/auth"), Rules: r("d1.local", "/admin", "app1")},
 			{Name: "ing3", Ann: annOf(kOAuth, "oauth2_proxy", "cors-enable", "true"), Rules: r("d1.local", "/both", "app1")},
 			{Name: "ingoauth", Rules: r("d1.local", "/oauth2", "oauth2proxy")}}},
+		// an ssl-passthrough host with protected http paths sharing a backend with an open one
+		{Kind: "pipeline", PathType: "Prefix", Services: append(append([]string{}, svcs...), "tls"), Ingresses: []ingIn{
+			{Name: "ingpass", Ann: annOf("ssl-passthrough", "true"), Rules: []c1819.Rule{{Host: "pass.local", Path: "/", Service: "tls", Port: 8443}}},
+			{Name: "ing1", Ann: annOf(kURL, "http://10.0.0.2:8000/auth"), Rules: r("pass.local", "/admin", "app1")},
+			{Name: "ing2", Ann: annOf(kURL, "http://unresolvable.invalid/auth"), Rules: r("pass.local", "/bad", "app1")},
+			{Name: "ing3", Rules: r("pass.local", "/pub", "app1")}}},
+		// a server alias and a wildcard host: the protected path answers to other host names
+		{Kind: "pipeline", PathType: "Prefix", Services: svcs, Ingresses: []ingIn{
+			{Name: "ing1", Ann: annOf(kURL, "http://10.0.0.2:8000/auth", "server-alias", "alias-h1.local"), Rules: r("h1.local", "/a", "app1")},
+			{Name: "ing2", Rules: r("h1.local", "/b", "app1")},
+			{Name: "ing3", Ann: annOf(kOAuth, "oauth2_proxy"), Rules: r("*.w.local", "/w", "app1")}}},
 		// empty auth-proxy range
 		{Kind: "pipeline", PathType: "Prefix", Global: map[string]string{"auth-proxy": "_front__auth__local:14420-14410"}, Services: svcs, Ingresses: []ingIn{
 			{Name: "ing1", Ann: annOf(kURL, "http://10.0.0.2:8000/auth"), Rules: r("h1.local", "/app", "app1")}}},
@@ -438,6 +465,8 @@ func runPipeline(in input, scratch string) *pipeObs {
 		for i, s := range in.Services {
 			if s == "authsvc" {
 				p.AddServicePorts(ns+"/"+s, []int{8080, 9090}, nsIP(ns, 21))
+			} else if s == "tls" {
+				p.AddServicePorts(ns+"/"+s, []int{8443}, nsIP(ns, 31))
 			} else {
 				p.AddService(ns+"/"+s, "8080", nsIP(ns, 11+i), nil)
 			}
@@ -464,7 +493,7 @@ func runPipeline(in input, scratch string) *pipeObs {
 		d := declOf(effAnn(in, g.Ann))
 		for _, r := range g.Rules {
 			link := hatypes.CreateHostPathLink(r.Host, r.Path, matchOf(in.PathType))
-			be := hc.Backends().FindBackend(g.ns(), r.Service, "8080")
+			be := hc.Backends().FindBackend(g.ns(), r.Service, strconv.Itoa(r.Port))
 			if be == nil {
 				continue
 			}
@@ -578,6 +607,29 @@ func routes(in input, host, url string) string {
 	return best
 }
 
+// hostVariants: the names a request can carry in its Host header to reach the paths of a
+// declared host: the host itself, a label in front of a wildcard, the server aliases
+func hostVariants(in input, host string) []string {
+	out := []string{host}
+	if strings.HasPrefix(host, "*.") {
+		out = []string{"zz9" + host[1:]}
+	}
+	seen := map[string]bool{}
+	for _, g := range in.Ingresses {
+		a := g.Ann["server-alias"]
+		if a == "" || seen[a] {
+			continue
+		}
+		for _, r := range g.Rules {
+			if r.Host == host && !seen[a] {
+				seen[a] = true
+				out = append(out, a)
+			}
+		}
+	}
+	return out
+}
+
 func probes(in input, host, path string) []string {
 	cands := []string{path, strings.TrimSuffix(path, "/") + "/zz9"}
 	if in.PathType == "ImplementationSpecific" {
@@ -648,6 +700,10 @@ func oraclePipeline(in input, obs *pipeObs) []fail {
 	byIng := map[string]ingIn{}
 	for _, g := range in.Ingresses {
 		byIng[g.id()] = g
+	}
+	nf, err := cfgnorm.Load(obs.pipe.Dir, "")
+	if err != nil {
+		panic(fmt.Sprintf("cfgnorm: %v", err))
 	}
 	for _, po := range obs.Paths {
 		g := byIng[po.Ingress]
@@ -778,32 +834,47 @@ func oraclePipeline(in input, obs *pipeObs) []fail {
 				if po.Allowed != "" && strings.HasPrefix(u, po.Allowed) {
 					continue // the oauth sign-in prefix is exempt by design of the declaration
 				}
-				for _, meth := range []string{"GET", "POST", "OPTIONS", "HEAD", "PUT"} {
-					q := c1819.Request{Base: strings.ToLower(po.Host) + "#" + u, Path: u, PathID: po.PathID, Method: meth}
-					// a client every authentication service rejects
-					v := c1819.RunAuth(rules, q, func(string) bool { return false })
-					if v.Served {
-						key := "rendered-rule-missing"
-						switch {
-						case meth != "GET":
-							// the same request with GET is covered: a condition on the method
-							key = "rendered-rule-skips-method"
-						case i > 0 && feProt && !beProt:
-							// the exact path is covered, this request of the same path is not,
-							// and only the frontend holds the rule
-							key = "frontend-rule-exact-match-only"
-						case i > 0:
-							key = "rendered-rule-misses-request"
-						}
-						fs = append(fs, fail{key, fmt.Sprintf("%s: %s %s%s through %s is served without authentication (no deny, no auth-intercept+deny applies)", id, meth, po.Host, u, fe)})
-						served = true
-						break
+				for _, hv := range hostVariants(in, po.Host) {
+					// txn.pathID as HAProxy derives it: the frontend maps pick the backend, the
+					// idpath maps of that backend, read from disk, give the id (lib/cfgnorm)
+					rt := cfgnorm.Route(nf, cfgnorm.Request{Scheme: "http", Host: hv, Path: u})
+					if rt.Backend != po.Backend {
+						continue // redirected, refused or answered elsewhere: not this path's business
 					}
-					// a client only the other services accept
-					v = c1819.RunAuth(rules, q, func(n string) bool { return !own[n] })
-					if v.Served {
-						fs = append(fs, fail{"rendered-rule-other-service", fmt.Sprintf("%s: %s %s%s through %s is served when only foreign auth services accept it (%v ran)", id, meth, po.Host, u, fe, v.Checked)})
-						served = true
+					pathID := rt.Vars["txn.pathID"]
+					for _, meth := range []string{"GET", "POST", "OPTIONS", "HEAD", "PUT"} {
+						q := c1819.Request{Base: strings.ToLower(hv) + "#" + u, Path: u, PathID: pathID, Method: meth}
+						// a client every authentication service rejects
+						v := c1819.RunAuth(rules, q, func(string) bool { return false })
+						if v.Served {
+							key := "rendered-rule-missing"
+							switch {
+							case pathID != po.PathID && needID && c1819.RunAuth(rules, c1819.Request{Base: q.Base, Path: u, PathID: po.PathID, Method: meth}, func(string) bool { return false }).Served == false:
+								// with the id of the path the rules hold: the id was not derived
+								key = "rendered-pathid-not-derived"
+							case meth != "GET":
+								// the same request with GET is covered: a condition on the method
+								key = "rendered-rule-skips-method"
+							case (i > 0 || hv != po.Host) && feProt && !beProt:
+								// the exact path is covered, this request of the same path is not,
+								// and only the frontend holds the rule
+								key = "frontend-rule-exact-match-only"
+							case i > 0:
+								key = "rendered-rule-misses-request"
+							}
+							fs = append(fs, fail{key, fmt.Sprintf("%s: %s %s%s through %s reaches %s with txn.pathID=%q and is served without authentication (no deny, no auth-intercept+deny applies)", id, meth, hv, u, fe, rt.Backend, pathID)})
+							served = true
+							break
+						}
+						// a client only the other services accept
+						v = c1819.RunAuth(rules, q, func(n string) bool { return !own[n] })
+						if v.Served {
+							fs = append(fs, fail{"rendered-rule-other-service", fmt.Sprintf("%s: %s %s%s through %s is served when only foreign auth services accept it (%v ran)", id, meth, hv, u, fe, v.Checked)})
+							served = true
+							break
+						}
+					}
+					if served {
 						break
 					}
 				}
@@ -868,7 +939,7 @@ func serviceOf(g ingIn, po pathObs) string {
 }
 
 func idpathHas(dir string, po pathObs) bool {
-	files, _ := filepath.Glob(filepath.Join(dir, "cfg", "maps", "_back_"+po.Backend+"_idpath__*.map"))
+	files, _ := filepath.Glob(filepath.Join(dir, "etc", "haproxy", "maps", "_back_"+po.Backend+"_idpath__*.map"))
 	for _, f := range files {
 		b, err := os.ReadFile(f)
 		if err != nil {
